@@ -44,6 +44,19 @@ pub fn hook_union_single_and_range(v: &ASN1Value, min: Option<&ASN1Value>, max: 
 pub fn hook_fold_constraint_set(set: &SetOperation) -> Result<Option<SubtypeElements>, GrammarError> {
     fold_constraint_set(set, None, true)
 }
+/// (min, max, extensible, is_size) of the range folded from one element / one constraint
+pub fn hook_range_from_element(e: Option<&SubtypeElements>) -> Result<(Option<i128>, Option<i128>, bool, bool), GrammarError> {
+    let c: PerVisibleRangeConstraints = e.try_into()?;
+    Ok((c.min, c.max, c.extensible, c.is_size_constraint))
+}
+pub fn hook_range_from_constraint(c: &Constraint) -> Result<(Option<i128>, Option<i128>, bool, bool), GrammarError> {
+    let c: PerVisibleRangeConstraints = c.try_into()?;
+    Ok((c.min, c.max, c.extensible, c.is_size_constraint))
+}
+pub fn hook_default_unsigned() -> (Option<i128>, Option<i128>, bool, bool) {
+    let c = PerVisibleRangeConstraints::default_unsigned();
+    (c.min, c.max, c.extensible, c.is_size_constraint)
+}
 pub fn hook_compare_optional(first: Option<&ASN1Value>, second: Option<&ASN1Value>, take_min: bool) -> Result<Option<ASN1Value>, GrammarError> {
     compare_optional_asn1values(first, second, |a, b| if take_min { a.min(b, None) } else { a.max(b, None) })
 }
